@@ -101,6 +101,12 @@ def cases(ctx):
         add(f'binomial:{n}', 'binomial', n,
             lambda v, o: (o, v - o), outcomes=tuple(range(n + 1)))
     add('zero', 'zero', 7, lambda v, o: (0, 0))
+    for i, val in enumerate([math.inf, -math.inf, math.nan, 'arr', 'q',
+                             0.0]):
+        # "zeros": for a variable with units, zero in those units
+        add(f'zero:{i}', 'zero', val,
+            lambda v, o: ((0 * v.units, 0 * v.units)
+                          if isinstance(v, Quantity) else (0, 0)))
     add('set_value', {'divider': 'set_value', 'config': {'value': 11}}, 7,
         lambda v, o: (11, 11))
     add('null', 'null', 7, lambda v, o: ('DEFAULT', 'DEFAULT'))
@@ -516,6 +522,92 @@ def branch_case(job, acc):
             label))
 
 
+def reserve_divider(value, state=None, config=None):
+    r = state['reserved']
+    return [r, value - r]
+
+
+TOPO_BRANCHES = [('cyto',), ('membrane',), ('deep', 'inner'),
+                 ('deep', 'inner2')]
+
+
+def topo_case(job, acc):
+    """Several variables, in different branches, whose dict dividers
+    carry the SAME relative topology text ('..', 'reserved'): each must be
+    divided with the neighbour found from its own place."""
+    _, reserved, copy_procs, order = job
+    label = {'case': 'topology-divider', 'reserved': list(reserved),
+             'copy_processes': copy_procs, 'job': list(job)}
+    div_schema = {'_default': 0, '_emit': True, '_divider': {
+        'divider': reserve_divider,
+        'topology': {'reserved': ('..', 'reserved')}}}
+    schema, topo, state = {}, {}, {}
+    for bi in order:
+        br, r = TOPO_BRANCHES[bi], reserved[bi]
+        port = 'p' + '_'.join(br)
+        schema[port] = {'pool': dict(div_schema),
+                        'reserved': {'_default': 0, '_emit': True}}
+        topo[port] = br
+        node = state
+        for k in br[:-1]:
+            node = node.setdefault(k, {})
+        node[br[-1]] = {'pool': 10, 'reserved': r}
+    cell = {'cls': 'P', 'pid': 'cell', 'ts': 1, 'log_states': False,
+            'schema': schema, 'update': {}}
+    ds = []
+    for i in (0, 1):
+        d = {'key': f'm{i}'}
+        if not copy_procs:
+            d['processes'] = {'$probes': {'cell': copy.deepcopy(cell)}}
+            d['topology'] = {'cell': dict(topo)}
+        ds.append(d)
+    div = {'cls': 'S', 'pid': 'div', 'log_states': False,
+           'schema': {'agents': {}},
+           'update': {'$n': {1: {'agents': {'_divide': {
+               'mother': 'm', 'daughters': ds}}}}, '$else': {}}}
+    spec = {'processes': {'agents': {'m': {'cell': cell}}},
+            'steps': {'div': div}, 'flow': {'div': []},
+            'topology': {'div': {'agents': ('agents',)},
+                         'agents': {'m': {'cell': dict(topo)}}},
+            'state': {'agents': {'m': state}},
+            'script': [('update', 1)]}
+    ex = worlds.execute(spec)
+    acc.case(key=job, outcome='topology-divider')
+    if ex.error:
+        acc.violate(fw.violation(
+            'C11.crash', f'topology-divider:{type(ex.error[2]).__name__}',
+            f'unexpected {ex.error[2]!r}', label))
+        return
+    agents = ex.engine.state.get_value()['agents']
+    for bi in order:
+        br, r = TOPO_BRANCHES[bi], reserved[bi]
+        got = []
+        for d in ('m0', 'm1'):
+            node = agents.get(d, {})
+            for k in br:
+                node = node.get(k, {}) if isinstance(node, dict) else {}
+            got.append(node.get('pool') if isinstance(node, dict) else None)
+        if got != [r, 10 - r]:
+            acc.violate(fw.violation(
+                'C11.value', 'topology-divider-uses-another-variables-'
+                'neighbour',
+                f'{"/".join(br)}/pool: the divider promises {[r, 10 - r]} '
+                f'(reserved there: {r}), the daughters got {got}; reserved '
+                f'values by branch {dict(zip(TOPO_BRANCHES, reserved))}',
+                label))
+            return
+
+
+def topo_jobs():
+    out = []
+    for reserved in itertools.permutations((1, 3, 4, 6)):
+        for copy_procs in (False, True):
+            for order in ((0, 1, 2, 3), (3, 2, 1, 0), (1, 0), (2, 3),
+                          (0, 2)):
+                out.append(('topo', reserved, copy_procs, order))
+    return out
+
+
 def jobs(ctx):
     out = []
     cs = cases(ctx)
@@ -536,13 +628,15 @@ def jobs(ctx):
 def run_job(job, acc):
     if job[0] == 'branch':
         branch_case(job, acc)
+    elif job[0] == 'topo':
+        topo_case(job, acc)
     else:
         run_case(job, acc)
 
 
 def run(ctx):
     js = jobs(ctx) + [('branch', n, cp) for n in range(5)
-                      for cp in (False, True)]
+                      for cp in (False, True)] + topo_jobs()
     return ctx.map(run_job, js)
 
 
